@@ -4,6 +4,10 @@
 
 package function
 
+// The "no value" sentinel keeps its initial value {T: -1, V: 0} (it is assigned once, by its
+// declaration; no function under contract has it in its frame).
+//@ assume function.InvalidSample.Point.T == -1 && feq(function.InvalidSample.Point.V, 0.0) && function.InvalidSample.Point.H == nil
+
 // NewFunctionCall: a function name missing from the table is reported as not implemented when the
 // parser knows it and as unsupported otherwise; never as anything else (C08).
 //@ func NewFunctionCall
@@ -254,3 +258,107 @@ package function
 //@   loop 0 invariant o != nil && o.pool != nil && o.scalarOp != nil && o.vectorOp != nil && hopInv(o) && len(o.outputIndex) == o.vectorOp.nSeries &&
 //@       sameslice(vectors, callres("model.VectorOperator.Next", 2, 0)) && allocated(vectors) &&
 //@       (forall k in 0..len(vectors) :: len(vectors[k].SampleIDs) == len(vectors[k].Samples) && allocated(vectors[k].SampleIDs) && (forall j in 0..len(vectors[k].SampleIDs) :: vectors[k].SampleIDs[j] < o.vectorOp.nSeries))
+
+// ---- functions.go: the function table (C03, C06, C18) --------------------------------------------
+// Every range / instant kernel of the table: no value below its minimum number of samples (two for
+// rate, increase, delta, irate, idelta, deriv; one otherwise) - that is the reference engine's presence
+// rule - and a value is stamped with the step time and carries the labels it was given. This also
+// discharges, entry by entry, what matrixSelector.Next assumes of its function field. Closures of the
+// package initialiser are numbered in source order (bin/gocv funcs -func 'function.init$').
+//@ func init$5
+//@   ensures[C03] sum_over_time-absent-below-1-samples: len(f.Points) < 1 ==> !validSample(result)
+//@   ensures[C03,C18] sum_over_time-stamped-with-the-step-time: validSample(result) ==> result.Point.T == f.StepTime
+//@   ensures[C03,C19] sum_over_time-carries-the-given-labels: validSample(result) ==> sameslice(result.Metric, f.Labels)
+//@ func init$6
+//@   ensures[C03] max_over_time-absent-below-1-samples: len(f.Points) < 1 ==> !validSample(result)
+//@   ensures[C03,C18] max_over_time-stamped-with-the-step-time: validSample(result) ==> result.Point.T == f.StepTime
+//@   ensures[C03,C19] max_over_time-carries-the-given-labels: validSample(result) ==> sameslice(result.Metric, f.Labels)
+//@ func init$7
+//@   ensures[C03] min_over_time-absent-below-1-samples: len(f.Points) < 1 ==> !validSample(result)
+//@   ensures[C03,C18] min_over_time-stamped-with-the-step-time: validSample(result) ==> result.Point.T == f.StepTime
+//@   ensures[C03,C19] min_over_time-carries-the-given-labels: validSample(result) ==> sameslice(result.Metric, f.Labels)
+//@ func init$8
+//@   ensures[C03] avg_over_time-absent-below-1-samples: len(f.Points) < 1 ==> !validSample(result)
+//@   ensures[C03,C18] avg_over_time-stamped-with-the-step-time: validSample(result) ==> result.Point.T == f.StepTime
+//@   ensures[C03,C19] avg_over_time-carries-the-given-labels: validSample(result) ==> sameslice(result.Metric, f.Labels)
+//@ func init$9
+//@   ensures[C03] stddev_over_time-absent-below-1-samples: len(f.Points) < 1 ==> !validSample(result)
+//@   ensures[C03,C18] stddev_over_time-stamped-with-the-step-time: validSample(result) ==> result.Point.T == f.StepTime
+//@   ensures[C03,C19] stddev_over_time-carries-the-given-labels: validSample(result) ==> sameslice(result.Metric, f.Labels)
+//@ func init$10
+//@   ensures[C03] stdvar_over_time-absent-below-1-samples: len(f.Points) < 1 ==> !validSample(result)
+//@   ensures[C03,C18] stdvar_over_time-stamped-with-the-step-time: validSample(result) ==> result.Point.T == f.StepTime
+//@   ensures[C03,C19] stdvar_over_time-carries-the-given-labels: validSample(result) ==> sameslice(result.Metric, f.Labels)
+//@ func init$11
+//@   ensures[C03] count_over_time-absent-below-1-samples: len(f.Points) < 1 ==> !validSample(result)
+//@   ensures[C03,C18] count_over_time-stamped-with-the-step-time: validSample(result) ==> result.Point.T == f.StepTime
+//@   ensures[C03,C19] count_over_time-carries-the-given-labels: validSample(result) ==> sameslice(result.Metric, f.Labels)
+//@ func init$12
+//@   ensures[C03] last_over_time-absent-below-1-samples: len(f.Points) < 1 ==> !validSample(result)
+//@   ensures[C03,C18] last_over_time-stamped-with-the-step-time: validSample(result) ==> result.Point.T == f.StepTime
+//@   ensures[C03,C19] last_over_time-carries-the-given-labels: validSample(result) ==> sameslice(result.Metric, f.Labels)
+//@ func init$13
+//@   ensures[C03] present_over_time-absent-below-1-samples: len(f.Points) < 1 ==> !validSample(result)
+//@   ensures[C03,C18] present_over_time-stamped-with-the-step-time: validSample(result) ==> result.Point.T == f.StepTime
+//@   ensures[C03,C19] present_over_time-carries-the-given-labels: validSample(result) ==> sameslice(result.Metric, f.Labels)
+//@ func init$15
+//@   ensures[C03] changes-absent-below-1-samples: len(f.Points) < 1 ==> !validSample(result)
+//@   ensures[C03,C18] changes-stamped-with-the-step-time: validSample(result) ==> result.Point.T == f.StepTime
+//@   ensures[C03,C19] changes-carries-the-given-labels: validSample(result) ==> sameslice(result.Metric, f.Labels)
+//@ func init$16
+//@   ensures[C03] resets-absent-below-1-samples: len(f.Points) < 1 ==> !validSample(result)
+//@   ensures[C03,C18] resets-stamped-with-the-step-time: validSample(result) ==> result.Point.T == f.StepTime
+//@   ensures[C03,C19] resets-carries-the-given-labels: validSample(result) ==> sameslice(result.Metric, f.Labels)
+//@ func init$17
+//@   ensures[C03] deriv-absent-below-2-samples: len(f.Points) < 2 ==> !validSample(result)
+//@   ensures[C03,C18] deriv-stamped-with-the-step-time: validSample(result) ==> result.Point.T == f.StepTime
+//@   ensures[C03,C19] deriv-carries-the-given-labels: validSample(result) ==> sameslice(result.Metric, f.Labels)
+//@ func init$18
+//@   ensures[C03] irate-absent-below-2-samples: len(f.Points) < 2 ==> !validSample(result)
+//@   ensures[C03,C18] irate-stamped-with-the-step-time: validSample(result) ==> result.Point.T == f.StepTime
+//@   ensures[C03,C19] irate-carries-the-given-labels: validSample(result) ==> sameslice(result.Metric, f.Labels)
+//@ func init$19
+//@   ensures[C03] idelta-absent-below-2-samples: len(f.Points) < 2 ==> !validSample(result)
+//@   ensures[C03,C18] idelta-stamped-with-the-step-time: validSample(result) ==> result.Point.T == f.StepTime
+//@   ensures[C03,C19] idelta-carries-the-given-labels: validSample(result) ==> sameslice(result.Metric, f.Labels)
+//@ func init$20
+//@   ensures[C06] vector-absent-below-1-samples: len(f.Points) < 1 ==> !validSample(result)
+//@   ensures[C06,C18] vector-stamped-with-the-step-time: validSample(result) ==> result.Point.T == f.StepTime
+//@   ensures[C06,C19] vector-carries-the-given-labels: validSample(result) ==> sameslice(result.Metric, f.Labels)
+//@ func init$22
+//@   at function.extrapolatedRate assert[C03] rate-is-a-per-second-counter-rate: $isCounter && $isRate && sameslice($samples, f.Points) && $stepTime == f.StepTime && $selectRange == f.SelectRange && $offset == f.Offset
+//@   ensures[C03] rate-value: len(f.Points) >= 2 ==> result.Point.V == callres("function.extrapolatedRate", 1)
+//@   ensures[C03] rate-absent-below-2-samples: len(f.Points) < 2 ==> !validSample(result)
+//@   ensures[C03,C18] rate-stamped-with-the-step-time: validSample(result) ==> result.Point.T == f.StepTime
+//@   ensures[C03,C19] rate-carries-the-given-labels: validSample(result) ==> sameslice(result.Metric, f.Labels)
+//@ func init$23
+//@   at function.extrapolatedRate assert[C03] delta-is-a-plain-difference: !$isCounter && !$isRate && sameslice($samples, f.Points) && $stepTime == f.StepTime && $selectRange == f.SelectRange && $offset == f.Offset
+//@   ensures[C03] delta-value: len(f.Points) >= 2 ==> result.Point.V == callres("function.extrapolatedRate", 1)
+//@   ensures[C03] delta-absent-below-2-samples: len(f.Points) < 2 ==> !validSample(result)
+//@   ensures[C03,C18] delta-stamped-with-the-step-time: validSample(result) ==> result.Point.T == f.StepTime
+//@   ensures[C03,C19] delta-carries-the-given-labels: validSample(result) ==> sameslice(result.Metric, f.Labels)
+//@ func init$24
+//@   at function.extrapolatedRate assert[C03] increase-is-a-counter-increase: $isCounter && !$isRate && sameslice($samples, f.Points) && $stepTime == f.StepTime && $selectRange == f.SelectRange && $offset == f.Offset
+//@   ensures[C03] increase-value: len(f.Points) >= 2 ==> result.Point.V == callres("function.extrapolatedRate", 1)
+//@   ensures[C03] increase-absent-below-2-samples: len(f.Points) < 2 ==> !validSample(result)
+//@   ensures[C03,C18] increase-stamped-with-the-step-time: validSample(result) ==> result.Point.T == f.StepTime
+//@   ensures[C03,C19] increase-carries-the-given-labels: validSample(result) ==> sameslice(result.Metric, f.Labels)
+// clamp (C06): no value when max < min (the reference drops the sample), otherwise max(min, min(max, v)).
+//@ extern math.Max(a, b) r
+//@   pure
+//@ extern math.Min(a, b) r
+//@   pure
+//@ func init$25
+//@   ensures[C06] clamp-drops-when-max-below-min: len(f.Points) >= 1 && len(f.ScalarPoints) >= 2 && f.ScalarPoints[1] < f.ScalarPoints[0] ==> !validSample(result)
+//@   ensures[C06] clamp-absent-without-arguments: len(f.Points) == 0 || len(f.ScalarPoints) < 2 ==> !validSample(result)
+//@   ensures[C06,C18] clamp-stamped-with-the-step-time: validSample(result) ==> result.Point.T == f.StepTime
+//@ func init$26
+//@   ensures[C06] clamp_min-absent-without-arguments: len(f.Points) == 0 || len(f.ScalarPoints) == 0 ==> !validSample(result)
+//@   ensures[C06,C18] clamp_min-stamped-with-the-step-time: validSample(result) ==> result.Point.T == f.StepTime
+//@ func init$27
+//@   ensures[C06] clamp_max-absent-without-arguments: len(f.Points) == 0 || len(f.ScalarPoints) == 0 ==> !validSample(result)
+//@   ensures[C06,C18] clamp_max-stamped-with-the-step-time: validSample(result) ==> result.Point.T == f.StepTime
+// simpleFunc (abs, ceil, ..., the math functions): applied to the sample's value, stamped with the step time.
+//@ func simpleFunc$1
+//@   ensures[C06] simple-function-absent-without-a-sample: len(fa.Points) == 0 ==> !validSample(result)
+//@   ensures[C06,C18] simple-function-stamped-with-the-step-time: validSample(result) ==> result.Point.T == fa.StepTime
